@@ -224,7 +224,7 @@ pub fn cases(ctx: &Ctx) -> Vec<Case> {
             .map(|k| ((2 * k + 1) as u8, r.pick(CLASS_POOL).to_string(), vec![if i == 6 { TS_POOL[3].to_string() } else { r.pick(TS_POOL).to_string() }]))
             .collect();
         // ---- script
-        let malformed = i >= 7 && r.chance(1, 5);
+        let malformed = i >= 8 && r.chance(1, 5);
         let nmsg = r.range(1, 3) as usize;
         let mut evs: Vec<Ev> = vec![];
         let mut msgs: Vec<Msg> = vec![];
@@ -242,6 +242,7 @@ pub fn cases(ctx: &Ctx) -> Vec<Case> {
                 (4, 0) => ("..".to_string(), "special"),
                 (5, 0) => ("1.2.3.4\0\0".to_string(), "trailing-nul"),
                 (6, 0) => ("1.2.3.6".to_string(), "empty-fragment"),
+                (7, 0) => ("1.2.3.7".to_string(), "after-aborted-association"),
                 _ => {
                     // UID texts are distinct within a case: a repeated text names the same file, the later
                     // store replaces the earlier one (modelled, but the per-message oracle could not tell)
@@ -301,7 +302,32 @@ pub fn cases(ctx: &Ctx) -> Vec<Case> {
         // case) does not depend on how far this association gets
         let groups: Vec<usize> = (0..evs.len()).map(|_| if r.coin() { 1 } else { r.range(1, 4) as usize }).collect();
         let mut gi = 0;
+        // An earlier association to the SAME server process that ends abnormally in the middle of a data
+        // set (command + non-last data fragments, then A-ABORT or a plain close): nothing of it may leak
+        // into the association of this case. Case 7 is the fixed witness (sync server).
+        let prelude: Option<(bool, Vec<u8>, Vec<u8>)> = if i == 7 || (i > 7 && r.chance(1, 3)) {
+            let (pc, class, tss) = contexts[0].clone();
+            let _ = pc;
+            let (junk, _) = rand_dataset(&mut r, &tss[0], Some(&class), Some("1.2.3.999"), false);
+            let cut_at = r.range(1, junk.len() as u64) as usize;
+            Some((r.coin(), command_bytes(0x0001, Some(77), Some(&class), Some("1.2.3.999")), junk[..cut_at].to_vec()))
+        } else { None };
         // ---- run it against the real binary
+        if let Some((abort, cmd, part)) = &prelude {
+            if let Ok(mut w0) = Wire::connect(srv.port, WAIT) {
+                if associate(&mut w0, &contexts, 16384).is_some() {
+                    let pc = contexts[0].0;
+                    let _ = w0.send(&Pdu::PData { data: vec![pdv(pc, true, true, cmd.clone())] });
+                    let h = part.len() / 2;
+                    let _ = w0.send(&Pdu::PData { data: vec![pdv(pc, false, false, part[..h].to_vec()), pdv(pc, false, false, part[h..].to_vec())] });
+                    if *abort {
+                        let _ = w0.send(&Pdu::AbortRQ { source: dicom_ul::pdu::AbortRQSource::ServiceUser });
+                        while w0.recv().is_some() {}   // until the tool has closed its end
+                    }
+                }
+                drop(w0);                                // (no abort: the connection just goes away)
+            }
+        }
         let mut rsps: Vec<(u8, u8, u16, String, String)> = vec![];
         let mut alive = false;
         let mut accepted: Vec<(u8, String)> = vec![];
@@ -400,6 +426,10 @@ pub fn cases(ctx: &Ctx) -> Vec<Case> {
         } else if infra || !note.is_empty() || !all_accepted {
             // no (complete) exchange took place: nothing to judge; the note goes to the evidence
             oracle = Oracle::NotApplicable;
+        } else if !malformed && msgs.iter().all(|m| m.uid.chars().count() + 4 <= 255) && !(alive && rsps.len() == msgs.len()) {
+            // a well-formed script on accepted contexts, every name within the file system's limit:
+            // each complete message must be stored and answered and the association must survive
+            oracle = Oracle::Fails { class: "complete-message-not-acknowledged".into(), detail: format!("{} complete C-STORE messages, {} responses, association {}{}", msgs.len(), rsps.len(), if alive { "released normally" } else { "dropped by the tool" }, if prelude.is_some() { " (after an earlier association to the same server ended in the middle of a data set)" } else { "" }) };
         } else if !malformed && alive && rsps.len() == msgs.len() {
             // every message that was acknowledged is in exactly one file, with the right file meta group
             let mut bad = None;
@@ -443,7 +473,7 @@ pub fn cases(ctx: &Ctx) -> Vec<Case> {
             coq,
             desc: json!({"bucket": bucket, "mode": if srv.asynch { "non-blocking" } else { "sync" }, "out_dir": srv.out_arg,
                           "uids": msgs.iter().map(|m| m.uid.clone()).collect::<Vec<_>>(), "contexts": contexts, "pdvs": evs.len(),
-                          "files": files.iter().map(|f| f.display().to_string()).collect::<Vec<_>>(), "responses": rsps.len(), "alive": alive, "note": note}),
+                          "files": files.iter().map(|f| f.display().to_string()).collect::<Vec<_>>(), "earlier_association": prelude.as_ref().map(|p| if p.0 { "command + partial data set, then A-ABORT" } else { "command + partial data set, then connection closed" }), "responses": rsps.len(), "alive": alive, "note": note}),
             key: if msgs.is_empty() { String::new() } else { format!("{}|{:?}|{}", srv.out_arg, msgs.iter().map(|m| &m.uid).collect::<Vec<_>>(), evs.len()) },
             oracle,
         });
